@@ -113,7 +113,11 @@ func (b *ParamObjectBuilder) resolveFieldDependency(
 		// Create slice with resolved values
 		slice := reflect.MakeSlice(fieldType, len(values), len(values))
 		for i, val := range values {
-			slice.Index(i).Set(reflect.ValueOf(val))
+			// A member the constructor left nil (a nil output of a multi-output
+			// constructor) stays the zero value of the element type
+			if val != nil {
+				slice.Index(i).Set(reflect.ValueOf(val))
+			}
 		}
 
 		return slice, nil
@@ -390,7 +394,11 @@ func (ci *ConstructorInvoker) resolveParameter(
 		// Create a slice of the correct type and populate it
 		slice := reflect.MakeSlice(param.Type, len(values), len(values))
 		for i, val := range values {
-			slice.Index(i).Set(reflect.ValueOf(val))
+			// A member the constructor left nil (a nil output of a multi-output
+			// constructor) stays the zero value of the element type
+			if val != nil {
+				slice.Index(i).Set(reflect.ValueOf(val))
+			}
 		}
 		return slice.Interface(), nil
 	}
